@@ -740,3 +740,96 @@ Proof.
   intros s ivs es H. unfold build in H.
   apply (build_comps_odes _ _ _ _ _ H); cbn; [reflexivity|split; constructor|constructor|constructor].
 Qed.
+
+Definition asts_type (t : vtype) : bool := match t with VUnknown | VInitialised | VShouldBeState | VState | VVoi => true | _ => false end.
+Definition stable3 (t : vtype) : bool := match t with VShouldBeState | VState | VVoi => true | _ => false end.
+Definition asts_iv (v : ivar) : Prop := asts_type (iv_type v) = true /\ iv_index v = None.
+
+Lemma ivar_of_cls_eq : forall s a b r, map iv_cls a = map iv_cls b -> ivar_of s a r = ivar_of s b r.
+Proof. intros s a b r H. unfold ivar_of, internal_variable. rewrite !find_index_cls, H, <- (map_length iv_cls a), <- (map_length iv_cls b), H.
+  destruct (find_index _ (map iv_cls b)); reflexivity. Qed.
+
+Lemma diff_event_types : forall s st d,
+  Forall asts_iv (vs_ivs st) ->
+  let st' := diff_event s st d in
+  Forall asts_iv (vs_ivs st') /\ map iv_cls (vs_ivs st') = map iv_cls (vs_ivs st) /\
+  (forall q, stable3 (iv_type (geti (vs_ivs st) q)) = true -> stable3 (iv_type (geti (vs_ivs st') q)) = true) /\
+  (ivar_of s (vs_ivs st) (snd d) < length (vs_ivs st) -> stable3 (iv_type (geti (vs_ivs st') (ivar_of s (vs_ivs st) (snd d)))) = true).
+Proof.
+  intros s st [t x] HA. cbv zeta. unfold diff_event. cbn [snd].
+  set (ivs := vs_ivs st) in *. set (pt := ivar_of s ivs t).
+  set (ivs1 := upd ivs pt (set_type (geti ivs pt) VVoi)).
+  match goal with |- context [let '(a, b) := ?m in _] => destruct m as [voi1 iss1] end. cbn [vs_ivs].
+  assert (Hc1 : map iv_cls ivs1 = map iv_cls ivs) by (apply upd_classes; reflexivity).
+  assert (Hpx : ivar_of s ivs1 x = ivar_of s ivs x) by (apply ivar_of_cls_eq; exact Hc1).
+  rewrite Hpx. set (px := ivar_of s ivs x).
+  assert (HAd : asts_iv divar) by (split; reflexivity).
+  assert (HA1 : Forall asts_iv ivs1).
+  { apply Forall_upd; [exact HA|]. destruct (Forall_geti _ _ pt HA HAd) as (_ & I). split; [reflexivity|exact I]. }
+  assert (Hms : forall v, asts_iv v -> asts_iv (make_state v) /\ stable3 (iv_type (make_state v)) = true).
+  { intros v (T & I). unfold make_state, asts_iv. destruct (iv_type v) eqn:E; cbn in T; try discriminate;
+      cbn [set_type iv_type iv_index]; rewrite ?E; (split; [split; [reflexivity|exact I]|reflexivity]). }
+  destruct (Hms _ (Forall_geti _ _ px HA1 HAd)) as (M1 & M2).
+  split; [apply Forall_upd; [exact HA1|exact M1]|].
+  split; [rewrite upd_classes; [exact Hc1|]; apply (make_state_same (geti ivs1 px))|].
+  assert (Hst1 : forall q, stable3 (iv_type (geti ivs q)) = true -> stable3 (iv_type (geti ivs1 q)) = true).
+  { intros q Hq. unfold ivs1, geti. destruct (Nat.eq_dec pt q) as [->|Hd].
+    - destruct (Nat.lt_ge_cases q (length ivs)) as [L|L]; [rewrite nth_upd_same by exact L; reflexivity|rewrite upd_beyond by exact L; exact Hq].
+    - rewrite nth_upd_other by exact Hd. exact Hq. }
+  split.
+  - intros q Hq. specialize (Hst1 q Hq). unfold geti. destruct (Nat.eq_dec px q) as [->|Hd].
+    + destruct (Nat.lt_ge_cases q (length ivs1)) as [L|L]; [rewrite nth_upd_same by exact L; exact M2|rewrite upd_beyond by exact L; exact Hst1].
+    + rewrite nth_upd_other by exact Hd. exact Hst1.
+  - intro Hb. rewrite geti_upd_same; [exact M2|]. unfold ivs1. rewrite upd_length. exact Hb.
+Qed.
+
+Lemma diff_events_types : forall s ds st,
+  Forall asts_iv (vs_ivs st) ->
+  (forall d, In d ds -> ivar_of s (vs_ivs st) (snd d) < length (vs_ivs st)) ->
+  let st' := fold_left (diff_event s) ds st in
+  Forall asts_iv (vs_ivs st') /\ map iv_cls (vs_ivs st') = map iv_cls (vs_ivs st) /\
+  (forall q, stable3 (iv_type (geti (vs_ivs st) q)) = true -> stable3 (iv_type (geti (vs_ivs st') q)) = true) /\
+  (forall d, In d ds -> stable3 (iv_type (geti (vs_ivs st') (ivar_of s (vs_ivs st) (snd d)))) = true).
+Proof.
+  intros s ds. induction ds as [|d r IH]; intros st HA Hb; cbn [fold_left]; cbv zeta.
+  - split; [exact HA|]. split; [reflexivity|]. split; [auto|]. intros d [].
+  - destruct (diff_event_types s st d HA) as (A1 & A2 & A3 & A4). cbv zeta in *.
+    assert (Hlen : length (vs_ivs (diff_event s st d)) = length (vs_ivs st)) by apply diff_event_length.
+    destruct (IH (diff_event s st d) A1) as (B1 & B2 & B3 & B4).
+    { intros d0 Hd0. rewrite Hlen. rewrite (ivar_of_cls_eq s _ _ (snd d0) A2). apply Hb. right. exact Hd0. }
+    cbv zeta in *. split; [exact B1|]. split; [congruence|]. split; [auto|].
+    intros d0 [<-|Hd0].
+    + apply B3. apply A4. apply Hb. left. reflexivity.
+    + rewrite <- (ivar_of_cls_eq s _ _ (snd d0) A2). apply B4. exact Hd0.
+Qed.
+
+Lemma analyse_asts_types : forall s ivs es,
+  Forall asts_iv ivs ->
+  (forall e d, In e es -> In d (ie_diffs e) -> ivar_of s ivs (snd d) < length ivs) ->
+  Forall asts_iv (vs_ivs (analyse_asts s ivs es)) /\
+  map iv_cls (vs_ivs (analyse_asts s ivs es)) = map iv_cls ivs /\
+  (forall e d, In e es -> In d (ie_diffs e) -> stable3 (iv_type (geti (vs_ivs (analyse_asts s ivs es)) (ivar_of s ivs (snd d)))) = true).
+Proof.
+  intros s ivs es HA Hb. unfold analyse_asts.
+  assert (G : forall es st, Forall asts_iv (vs_ivs st) -> map iv_cls (vs_ivs st) = map iv_cls ivs -> length (vs_ivs st) = length ivs ->
+            (forall e d, In e es -> In d (ie_diffs e) -> ivar_of s ivs (snd d) < length ivs) ->
+            let st' := fold_left (fun st e => fold_left (diff_event s) (ie_diffs e) st) es st in
+            Forall asts_iv (vs_ivs st') /\ map iv_cls (vs_ivs st') = map iv_cls ivs /\
+            (forall q, stable3 (iv_type (geti (vs_ivs st) q)) = true -> stable3 (iv_type (geti (vs_ivs st') q)) = true) /\
+            (forall e d, In e es -> In d (ie_diffs e) -> stable3 (iv_type (geti (vs_ivs st') (ivar_of s ivs (snd d)))) = true)).
+  { clear es Hb. induction es as [|e r IH]; intros st HAs Hc Hl Hb; cbn [fold_left]; cbv zeta.
+    - split; [exact HAs|]. split; [exact Hc|]. split; [auto|]. intros e d [].
+    - destruct (diff_events_types s (ie_diffs e) st HAs) as (A1 & A2 & A3 & A4).
+      { intros d Hd. rewrite Hl, (ivar_of_cls_eq s _ ivs (snd d) Hc). apply (Hb e d); [left; reflexivity|exact Hd]. }
+      cbv zeta in *.
+      destruct (IH (fold_left (diff_event s) (ie_diffs e) st) A1) as (B1 & B2 & B3 & B4).
+      { congruence. }
+      { pose proof (f_equal (@length _) A2) as K. rewrite !map_length in K. congruence. }
+      { intros e0 d Hin Hd. apply (Hb e0 d); [right; exact Hin|exact Hd]. }
+      cbv zeta in *. split; [exact B1|]. split; [exact B2|]. split; [auto|].
+      intros e0 d [<-|Hin] Hd.
+      + apply B3. rewrite <- (ivar_of_cls_eq s _ ivs (snd d) Hc). apply A4. exact Hd.
+      + apply (B4 e0 d Hin Hd). }
+  destruct (G es (mkVs ivs None []) HA eq_refl eq_refl Hb) as (G1 & G2 & _ & G4). cbv zeta in *.
+  split; [exact G1|]. split; [exact G2|exact G4].
+Qed.
